@@ -474,6 +474,31 @@ func hexString(s string) string {
 	return "<" + strings.Join(valStrings, "") + ">"
 }
 
+// rangeChunks splits the ranges into bfrange blocks.  A PostScript interpreter
+// keeps all operands of a block on its operand stack until endbfrange, and the
+// elements of a value list pass through the stack on top of them; blocks are
+// therefore limited by the number of operands as well as by chunkSize.
+func rangeChunks(x []ToUnicodeRange) [][]ToUnicodeRange {
+	const maxOperands = 400
+
+	var res [][]ToUnicodeRange
+	start := 0
+	for i, r := range x {
+		need := 3*(i-start) + 3
+		if len(r.Values) != 1 {
+			need += len(r.Values)
+		}
+		if i > start && (i-start == chunkSize || need > maxOperands) {
+			res = append(res, x[start:i])
+			start = i
+		}
+	}
+	if start < len(x) {
+		res = append(res, x[start:])
+	}
+	return res
+}
+
 // TODO(voss): once https://github.com/pdf-association/pdf-issues/issues/344
 // is resoved, reconsider CIDSystemInfo.
 var toUnicodeTmplNew = template.Must(template.New("cmap").Funcs(template.FuncMap{
@@ -489,7 +514,7 @@ var toUnicodeTmplNew = template.Must(template.New("cmap").Funcs(template.FuncMap
 		val := hexString(s.Value)
 		return fmt.Sprintf("<%x> %s", s.Code, val)
 	},
-	"RangeChunks": chunks[ToUnicodeRange],
+	"RangeChunks": rangeChunks,
 	"Range": func(r ToUnicodeRange) string {
 		if len(r.Values) == 1 {
 			return fmt.Sprintf("<%x> <%x> %s", r.First, r.Last, hexString(r.Values[0]))
